@@ -911,7 +911,7 @@ func run(c *core.Ctx) {
 		if !c.Quick() {
 			bound = 3
 		}
-		c.Set("sched_bound_completed", sched.Drive(c, []string{"first-contact"}, bound))
+		c.Set("sched_bound_completed", sched.Drive(c, []string{"first-contact", "peer-forward"}, bound))
 		c.Set("sched_schedules", c.Count("schedules"))
 	}
 	for _, cfg := range configs(c.Quick()) {
